@@ -68,6 +68,18 @@ CLAIMED = {
         technique="SCC of the monomorphic call graph + MIR dominators + type-containment finiteness argument",
         design_ref="DESIGN.md section 4 C18",
     ),
+    "C26": dict(
+        level="other",
+        text="Table agreement for the default frame rules: default_frame_match_condition (no catch-all) constructs, per Instruction variant, exactly the condition kinds of the Quil-T rules for used and blocked (blocked depends on the blocking flag); each condition kind is evaluated with the right quantifier in get_matching_keys_for_condition; FrameSet::filter removes used frames from blocked; and, at the type level, the region signatures of matching_frames / filter / get_matching_keys_for_condition tie the returned frame references to the program's FrameSet borrow and not to the instruction, so reported frames are the program's own. Set contents for concrete frame sets are not decided.",
+        technique="match-arm table extraction (syn + HIR) against a specification oracle; lifetime-signature (type-level) argument from the compiler's fn_sig",
+        design_ref="DESIGN.md section 4 C26",
+    ),
+    "C27": dict(
+        level="other",
+        text="Operand-to-access-kind flows decided for every Instruction variant: from the MemoryAccesses aggregates of DefaultHandler::memory_accesses and parameter summaries of its local helper functions, each operand field's set of {reads, writes, captures} is computed and compared with the specification table (38 rows); the match has no catch-all; CALL's writes depend on the parameter's mutable flag. Run-time set contents and index-level precision are not decided.",
+        technique="inter-procedural information-flow summaries over MIR origin expressions vs an oracle table",
+        design_ref="DESIGN.md section 4 C27",
+    ),
     "C28": dict(
         level="other",
         text="Classification totality of the CFG builder over every body-capable Instruction variant (no catch-all, none skipped except INCLUDE), terminator tables forward and inverse, is_dynamic = ConditionalJump, and dependence of every block-offset increment on the closed block's instruction count and label presence. Decides these structural necessary conditions for all programs; the offset arithmetic itself is not evaluated.",
